@@ -141,6 +141,42 @@ def run(ctx):
             lines.append("nprop"); expect.append("ok " + ("-" if prop is None else enc(prop)))
             ctx.count("op", op)
         ctx.case(("hist", h, n, init))
+    # ---- several waveforms sharing one extended-property dictionary (copy.copy, copy_extended_properties=False), some of
+    # them garbage-collected in between: every live waveform must follow every change of NI_LineNames -------------------
+    import gc
+    from nitypes.waveform import ExtendedPropertyDictionary
+    for h in range(80 if ctx.quick else 2500):
+        n = rng.randint(1, 4)
+        epd = ExtendedPropertyDictionary({LN: ", ".join(rng.choice(ALPHA[:8]) for _ in range(n))})
+        ws = []
+        for k in range(rng.randint(2, 5)):
+            how = rng.choice(["ctor", "copy"]) if ws else "ctor"
+            w = DigitalWaveform(2, n, extended_properties=epd, copy_extended_properties=False) if how == "ctor" else copy.copy(rng.choice(ws))
+            if w.extended_properties is not epd:
+                break
+            ws.append(w)
+        for step in range(rng.randint(2, 8)):
+            op = rng.choice(["read", "read", "drop", "set", "set", "del", "write"])
+            if op == "read":
+                for w in ws:
+                    if rng.random() < 0.7:
+                        [w.signals[i].name for i in range(n)]
+            elif op == "drop" and len(ws) > 1:
+                del ws[rng.randrange(len(ws) - 1)]      # an earlier-registered waveform goes away
+                gc.collect()
+            elif op == "set":
+                epd[LN] = ", ".join(rng.choice(ALPHA[:8]) + str(step) for _ in range(rng.choice([n, n, max(1, n - 1)])))
+            elif op == "del" and LN in epd:
+                del epd[LN]
+            elif op == "write":
+                rng.choice(ws).signals[rng.randrange(n)].name = "w" + str(step)
+            ok = True
+            for w in ws:
+                ok = check(w, f"shared dictionary / {op}") and ok
+            ctx.count("shared-op", op)
+            if not ok:
+                break
+        ctx.case(("shared", h, n))
     res = ctx.model(lines)
     if res is not None:
         for q, want, got in zip(lines, expect, res):
